@@ -82,6 +82,22 @@ func externalDeterministic(fn *ssa.Function) bool {
 	switch fn.Object().Pkg().Path() {
 	case "strconv", "strings", "unicode", "unicode/utf8", "math", "path", "path/filepath", "math/bits":
 		return fn.Signature.Recv() == nil
+	case "time":
+		// functions of the clock are not functions of their arguments
+		if fn.Signature.Recv() == nil {
+			switch fn.Name() {
+			case "Now", "Since", "Until", "Sleep", "NewTimer", "After", "AfterFunc", "Tick", "NewTicker":
+				return false
+			}
+		}
+		if r := fn.Signature.Recv(); r != nil {
+			if _, isPtr := r.Type().Underlying().(*types.Pointer); isPtr {
+				return false
+			}
+		}
+		return true
+	case "context":
+		return fn.Name() == "Background" || fn.Name() == "TODO"
 	}
 	return false
 }
@@ -849,7 +865,7 @@ func (fr *Frame) externalCall(st *State, callee *ssa.Function, kind string, c *s
 		variadic := ""
 		for i, a := range c.Args {
 			switch a.Type().Underlying().(type) {
-			case *types.Basic:
+			case *types.Basic, *types.Struct:
 				sorts = append(sorts, vc.sortOf(a.Type()))
 				terms = append(terms, args[i].T)
 			default:
@@ -866,7 +882,7 @@ func (fr *Frame) externalCall(st *State, callee *ssa.Function, kind string, c *s
 			}
 		}
 		if scalar {
-			fname := "ext_" + sanitize(callee.Object().Pkg().Name()+"_"+callee.Name()) + variadic
+			fname := extName(callee) + variadic
 			mk := func(suffix string, rt types.Type) Val {
 				fn := fname + suffix
 				vc.decl("fun:"+fn, fmt.Sprintf("(declare-fun %s (%s) %s)", fn, strings.Join(sorts, " "), vc.sortOf(rt)))
@@ -887,7 +903,7 @@ func (fr *Frame) externalCall(st *State, callee *ssa.Function, kind string, c *s
 			} else {
 				fr.vals[v] = mk("", v.Type())
 			}
-			vc.note("stdlib function modelled as an uninterpreted deterministic function: " + callee.Object().Pkg().Name() + "." + callee.Name())
+			vc.note("stdlib function modelled as an uninterpreted deterministic function: " + strings.TrimPrefix(extName(callee), "ext_"))
 			fr.externalFacts(st, callee, args, v)
 			return
 		}
@@ -916,6 +932,12 @@ func (fr *Frame) externalFacts(st *State, callee *ssa.Function, args []Val, v ss
 			size := r.Tuple[1].T
 			vc.assume(fmt.Sprintf("(and (<= 0 %s) (<= %s 4) (<= %s %s) (=> (> %s 0) (>= %s 1)))", size, size, size, n, n, size))
 			vc.note("assumed contract utf8.DecodeRune*: 0<=size<=4, size<=len, size>=1 when len>0")
+		}
+	case "time.NewTimer", "time.NewTicker", "context.Background", "context.TODO", "strings.NewReader", "bytes.NewReader", "bytes.NewBuffer", "bytes.NewBufferString":
+		if r.T != "" && vc.sortOf(r.Ty) == "Ref" {
+			vc.assume("(not (= " + r.T + " nil))")
+		} else if r.T != "" && vc.sortOf(r.Ty) == "Iface" {
+			vc.assume("(not (= (i.tag " + r.T + ") 0))")
 		}
 	case "errors.New":
 		vc.assume("(not (= (i.tag " + r.T + ") 0))")
@@ -1256,4 +1278,14 @@ func (fr *Frame) varargElems(st *State, a ssa.Value) ([]Val, bool) {
 		out = append(out, Val{T: vc.loadAt(st, vc.elemRef(base, fmt.Sprint(k)), arr.Elem()), Ty: arr.Elem()})
 	}
 	return out, true
+}
+
+// extName is the SMT symbol of the uninterpreted function that models a
+// deterministic stdlib function or value-receiver method.
+func extName(fn *ssa.Function) string {
+	name := fn.Object().Pkg().Name() + "_"
+	if r := fn.Signature.Recv(); r != nil {
+		name += types.TypeString(r.Type(), func(*types.Package) string { return "" }) + "_"
+	}
+	return "ext_" + sanitize(name+fn.Name())
 }
